@@ -9,4 +9,8 @@ go vet -tags verif ./internal/... >/dev/null 2>&1 || true
 for d in c*/; do
   go test -c -vet=off -tags verif -o /dev/null "./$d" || exit 1
 done
+# packages with -race runs: warm the race-instrumented build too (cold: ~75 s)
+for d in c18 c19; do
+  [ -d "$d" ] && go test -c -race -vet=off -tags verif -o /dev/null "./$d"
+done
 echo setup ok
